@@ -76,7 +76,18 @@ pub fn run_enum(args: &Args, mut out: Out) {
     for j in 0..sample {
         sid += 1;
         // favour adds early so that lists grow long before removals
-        let seq: Vec<(String, String)> = if j % 3 == 2 {
+        let seq: Vec<(String, String)> = if j % 6 == 4 {
+            // names related as prefix / suffix / repetition of one another (and in either letter case): a lookup must match
+            // the whole name
+            let pool = ["a", "ab", "abc", "A", "AB", "aB", "a-", "-a", "aa", "b-a", "a-b", "content-length", "content-length-hint", "x-content-length", "Content-Len"];
+            (0..sample_depth)
+                .map(|i| {
+                    let name = (*pool.choose(&mut rng).unwrap()).to_string();
+                    let op = if i < sample_depth / 2 && rng.gen_bool(0.7) { "add" } else { *["add", "get_only", "get_all", "remove_only", "remove_all"].choose(&mut rng).unwrap() };
+                    (op.to_string(), name)
+                })
+                .collect()
+        } else if j % 3 == 2 {
             // names that are easily confused: every pair of name bytes that differs only in bit 5 (the bit that
             // separates upper from lower case letters -- and '^' from '~', '_' from DEL, '@' from '`', '\\' from '|',
             // digits from control bytes), so that near-miss lookups are frequent
